@@ -124,6 +124,11 @@ def reweight_cases(rng, n, ctx):
             if not isinstance(outs[j], Exception) and rng.random() < 0.5:
                 d = _call(lambda: np.sin(outs[j]) * 2.0 + _obs_on(rng, lay, reps, 'full'))
                 cases.append({'id': cid + '-inh', 'ev': 'inherit', 'expect': True, 'res': _res(d)})
+                if len(outs[j].names) == 1 and i % 3 == 0:
+                    # ... also through the jackknife-based matrix product (single chains only, as that route requires)
+                    m1 = np.array([[outs[j]]], dtype=object)
+                    dj = _call(lambda: (pe.linalg.jack_matmul(m1, m1) if i % 2 else pe.linalg.einsum('ij,jk->ik', m1, m1))[0, 0])
+                    cases.append({'id': cid + '-inh-jack', 'ev': 'inherit', 'route': 'jackknife', 'expect': True, 'res': _res(dj)})
         ctx.sample({'id': 'rw-%04d' % i, 'weight_chains': [(nm, str(il)[:50]) for nm, il in lay], 'replicas_used': reps, 'subset': kind,
                     'all_configs': allc, 'container': container, 'malformation': bad})
     return cases
